@@ -24,14 +24,27 @@ ASSUMPTIONS = ["tolerances as documented: delta 0/4/6/12, minor elongation 50 bp
                "UNSURE and never raises"]
 
 CONSISTENT = {"unique", "unique_minor_difference", "ambiguous"}
-F_EDITS = ["skip", "retain", "alt_donor", "alt_acceptor", "novel_exon", "alt_last_in", "alt_first_in"]
+F_EDITS = ["skip", "retain", "alt_donor", "alt_acceptor", "novel_exon", "alt_last_in", "alt_first_in", "far5end", "far3end"]
 
 
-def far_chain(src, exons, annotated_sites):
+def far_chain(src, exons, annotated_sites, strand="+", info=None):
     """An unannotated chain derived from `exons` by a wide-margin change (or None)."""
     ex = [list(e) for e in exons]
     n = len(ex)
     kind = src.choice(F_EDITS)
+    if info is not None:
+        info["kind"] = kind
+    if kind in ("far5end", "far3end"):
+        # "distant ends": the intron chain of T, one end 400-700 bp beyond T's (major exon elongation)
+        d = src.int(400, 700)
+        left = (kind == "far5end") == (strand == "+")
+        if left:
+            if ex[0][0] - d < 60:
+                return None
+            ex[0][0] -= d
+        else:
+            ex[-1][1] += d
+        return ex
     if kind == "skip":
         cand = [i for i in range(1, n - 1) if ex[i][1] - ex[i][0] + 1 >= 160]
         if not cand:
@@ -119,18 +132,23 @@ def scenarios(draw):
                 tr["cls"] = "W"
                 tr["src"] = t["id"]
             else:
-                ch = far_chain(src, t["exons"], sites[g["chr"]])
+                info = {}
+                ch = far_chain(src, t["exons"], sites[g["chr"]], g["strand"], info)
                 if ch is None:
                     continue
+                # a far 3' end carries no tail (a tail there is an alternative polyA site, a category of its own);
+                # a far 5' end usually comes with a polyA tail at T's exact 3' end
+                pp = {"far3end": 0.0, "far5end": 0.85}.get(info["kind"], 0.7)
                 r, tr = S.read_from_chain(src, name, g["chr"], g["strand"], ch, delta=0, trunc_p=0.0, jitter_p=0.0,
-                                          indel_p=0.2, mapq=(20, 60), inward=False)
+                                          indel_p=0.2, mapq=(20, 60), inward=False, polya_p=pp)
+                tr["edit"] = info["kind"]
                 blocks = tr["blocks"]
                 # class F only if every annotated isoform overlapping the read span is surely incompatible
                 ok = True
                 for t2 in by_chr[g["chr"]]:
                     if t2["exons"][-1][1] < blocks[0][0] or t2["exons"][0][0] > blocks[-1][1]:
                         continue
-                    if compat.sure_incompatible(blocks, t2["exons"], 12) is None:
+                    if compat.sure_incompatible(blocks, t2["exons"], 12, far_ends=True) is None:
                         ok = False
                         break
                 tr["cls"] = "F" if ok else "G"
